@@ -38,6 +38,7 @@ type c13mut struct {
 
 type c13push struct {
 	c13mut
+	at   time.Duration // virtual time at which PushChange returned
 	conn int    // stream connection that was up when PushChange returned, -1 none
 	why  string // for deletes: the situation of the stream at that moment
 }
@@ -72,6 +73,7 @@ func (s *c13store) DeleteSession(id string) error {
 }
 
 type c13world struct {
+	streams map[int]*vhConn // stream connections by id (for the in-order rule)
 	c   *sim.Ctx
 	net *vhNet
 
@@ -127,10 +129,10 @@ func c13Gen(r *sim.Rand, tier string) *sim.Case {
 		cs.Ops = append(cs.Ops, sim.Op{K: "sleep", A: []int64{1}}) // let the first sync + attach complete
 	}
 	for i := 0; i < n; i++ {
-		w := []int{10, 8, 6, 8, 0, 0, 0, 0, 0, 0}
+		w := []int{10, 8, 6, 8, 0, 0, 0, 0, 0, 0, 0}
 		switch cs.Variant {
 		case "cuts":
-			w[4], w[5] = 4, 3
+			w[4], w[5], w[10] = 4, 3, 3
 		case "loss":
 			w[6], w[7] = 3, 3
 		case "partition":
@@ -138,7 +140,7 @@ func c13Gen(r *sim.Rand, tier string) *sim.Case {
 		case "crash":
 			w[9] = 3
 		case "mixed":
-			w[4], w[5], w[6], w[7], w[8], w[9] = 2, 2, 2, 2, 3, 2
+			w[4], w[5], w[6], w[7], w[8], w[9], w[10] = 2, 2, 2, 2, 3, 2, 2
 		}
 		id := int64(r.N(nid))
 		switch r.Weighted(w...) {
@@ -164,6 +166,11 @@ func c13Gen(r *sim.Rand, tier string) *sim.Case {
 				sim.Op{K: "sleep", A: []int64{int64(r.Weighted(2, 3, 3, 2, 2, 1))}}, sim.Op{K: "heal"})
 		case 9:
 			cs.Ops = append(cs.Ops, sim.Op{K: "crash", A: []int64{int64(r.N(3))}})
+		case 10:
+			// half-open stream: the standby sees the break, the active's handler does not until
+			// it next writes; the standby reconnects meanwhile, then more changes are pushed
+			cs.Ops = append(cs.Ops, sim.Op{K: "sleep", A: []int64{2}}, sim.Op{K: "cuthalfopen"}, sim.Op{K: "sleep", A: []int64{int64(sim.Pick(r, 2, 3, 3, 5))}},
+				sim.Op{K: sim.Pick(r, "upd", "add", "del"), A: []int64{id}}, sim.Op{K: "sleep", A: []int64{int64(sim.Pick(r, 2, 3))}})
 		}
 	}
 	return cs
@@ -359,6 +366,39 @@ func (w *c13world) checkStream(id int, final bool) {
 			id, A, lo, hi, w.pushes)
 		return
 	}
+	// In-order transport: once the standby has read bytes of this stream that the
+	// active flushed at a strictly later virtual time than a push made while the
+	// stream was connected (virtual time only advances when every task of the
+	// active has run to a blocking point, so the push has long been written),
+	// that push must have been applied - the "cut-off suffix" cannot reach back
+	// behind data that arrived.
+	// (Not after a crash of the standby: bytes it had read may not have been processed.)
+	if cn := w.streams[id]; cn != nil && best < np && !cn.cliNode.Dead() {
+		if t, ok := cn.LastReadFlushAt(); ok {
+			p := w.pushes[lo+best]
+			if p.at < t {
+				c.Fail("stream", "stream/skipped-behind-later-data/"+p.kind,
+					"stream connection %d: change #%d (%s %s v%d) was pushed at %v while the stream was connected and never applied, although the standby went on to read stream data the active flushed at %v (applied: %v)",
+					id, lo+best, p.kind, p.id, p.ver, p.at, t, A)
+				return
+			}
+		}
+	}
+	// A change may be lost as the cut-off suffix only if the disconnect caught it
+	// in flight. The simulated transport delivers flushed bytes at once while the
+	// link is up, and virtual time only advances once the active's broadcast
+	// chain and the standby's reader have run to a blocking point: a change
+	// pushed at a strictly earlier virtual time than the one at which the
+	// standby saw the stream end, with no partition in between, was not in flight.
+	if cn := w.streams[id]; cn != nil && best < np && !final && cn.ended && !cn.cliNode.Dead() {
+		p := w.pushes[lo+best]
+		if p.at < cn.endAt && !w.net.PartitionedDuring(p.at, cn.endAt) {
+			c.Fail("stream", "stream/lost-long-before-disconnect/"+p.kind,
+				"stream connection %d: change #%d (%s %s v%d) was pushed at %v while the stream was connected and never applied on it, although the standby saw the stream end only at %v with no partition in between (applied: %v)",
+				id, lo+best, p.kind, p.id, p.ver, p.at, cn.endAt, A)
+			return
+		}
+	}
 	if final && best < np {
 		p := w.pushes[lo+best]
 		c.Fail("stream", "stream/undelivered/"+p.kind,
@@ -368,7 +408,7 @@ func (w *c13world) checkStream(id int, final bool) {
 
 func c13Run(c *sim.Ctx) {
 	cs := c.Case
-	w := &c13world{c: c, checked: map[int]bool{}, curStream: -1}
+	w := &c13world{c: c, checked: map[int]bool{}, curStream: -1, streams: map[int]*vhConn{}}
 	n := newVHNet(c)
 	w.net = n
 	n.BaseLat = time.Duration(cs.Knob("lat_us", 300)) * time.Microsecond
@@ -411,6 +451,7 @@ func c13Run(c *sim.Ctx) {
 		case c13Stream:
 			if cn.status == http.StatusOK {
 				w.curStream, w.curConn = cn.id, cn
+				w.streams[cn.id] = cn
 				w.gap = false
 				c.OpsDone++
 				c.S.Probe("stream_connected")
@@ -475,7 +516,10 @@ func c13Run(c *sim.Ctx) {
 				why = "deleted-while-stream-down"
 			}
 		}
-		w.pushes = append(w.pushes, c13push{c13mut{kind, id, w.nextVer}, conn, why})
+		if conn >= 0 && conn == w.net.OutlivedBy {
+			c.S.Probe("push_on_stream_after_older_handler_teardown")
+		}
+		w.pushes = append(w.pushes, c13push{c13mut{kind, id, w.nextVer}, c.S.Now(), conn, why})
 		c.S.Logf("push #%d %s %s v%d (stream conn %d)", len(w.pushes)-1, typ, id, w.nextVer, conn)
 		c.OpsDone++
 	}
@@ -504,6 +548,12 @@ func c13Run(c *sim.Ctx) {
 		case "sleep":
 			c.S.Sleep(sleeps[int(op.Arg(len(op.A)-1))%len(sleeps)])
 		case "cut":
+			n.CutStream(c13Standby, c13Active)
+		case "cuthalfopen":
+			if w.curConn != nil {
+				w.curConn.lazySrv = true
+				c.S.Fault("http.halfopen")
+			}
 			n.CutStream(c13Standby, c13Active)
 		case "cutflush":
 			if n.ArmCut(c13Standby, c13Active) {
